@@ -41,7 +41,7 @@ RULE = ("Twin runs compared bit-for-bit on canonical digests (observation arrays
 ASSUMPTIONS = ["call-level interleavings only (single-threaded); thread pre-emption inside step() is outside the property's quantifier",
                "chain spans cover every time used in the process except in the dedicated K3 scenario"]
 REQUIRED = ["C10:fresh-identical", "C10:after-history", "C10:interleaved", "C10:all-interleavings",
-            "C10:same-as-alone-in-fresh-interpreter", "C10:backtest-same-as-step-loop", "C10:copy-continues-identically"]
+            "C10:same-as-alone-in-fresh-interpreter", "C10:backtest-same-as-step-loop", "C10:copy-continues-identically", "C10:returned-record-unchanged-by-later-episodes"]
 REQUIRED_CATS = ["scenario:used-transmitter-other-latency", "kind:xy", "alone-kind:xy", "alone-kind:spot", "alone-kind:chain", "kind:chain", "kind:spot", "kind:discrete", "history:abandon", "history:full", "history:otherfold", "history:error",
                  "history:insolvency", "history:windowed", "scenario:K3-construction", "kind:default-state"]
 TECHNIQUE = "runtime monitoring: twin-run comparison of canonical call digests; exhaustive call-level interleavings of two short episodes"
@@ -370,8 +370,18 @@ def case(ctx, i, tier):
         # the same actions through the other public way of running an episode, TradingEnv.backtest(policy)
         A3, _, _, _ = build(specA)
         want_rec = record_digest(A)
-        A3.backtest(fold, policy=Scripted(aA))
+        rec3 = A3.backtest(fold, policy=Scripted(aA))
         got_rec = record_digest(A3)
+        hist3 = getattr(rec3, "state_history", None)
+        if isinstance(hist3, dict) and hist3:
+            # what the returned record says - its entries and the state history attached to it - stays what it is
+            # when ANOTHER episode is played on the same environment afterwards
+            before = (len(rec3), [(k_, ep.odigest(v_) if not isinstance(v_, IState) else "IState") for k_, v_ in hist3.items()])
+            episode(A3, list(reversed(aA)), "late" if fold != "late" else "training-set", upto=rng.randint(0, 3))
+            after = (len(rec3), [(k_, ep.odigest(v_) if not isinstance(v_, IState) else "IState") for k_, v_ in rec3.state_history.items()])
+            ctx.check("C10:returned-record-unchanged-by-later-episodes", before == after, entries=[before[0], after[0]],
+                      history=[len(before[1]), len(after[1])])
+            ctx.cat("earlier-record-inspected-after-later-episode")
         ctx.check("C10:backtest-same-as-step-loop", got_rec == want_rec, spec=specA, fold=fold,
                   entries=[len(got_rec), len(want_rec)],
                   first_diff=next((j for j, (x, y) in enumerate(zip(got_rec, want_rec)) if x != y), None))
